@@ -152,10 +152,19 @@ def bound_registry():
 
 
 # ---------------------------------------------------------------- compile cache
+_COMPILE_LOCK = __import__("threading").Lock()
+
+
 @functools.lru_cache(maxsize=4096)
-def compile_text(text):
+def _compile_text(text):
     with contextlib.redirect_stderr(io.StringIO()), contextlib.redirect_stdout(io.StringIO()):
         return compiler.compile_prolog_from_string(text)
+
+
+def compile_text(text):
+    # redirect_stdout/stderr swap process-wide objects: never from two threads at once
+    with _COMPILE_LOCK:
+        return _compile_text(text)
 
 
 # ---------------------------------------------------------------- native predicates
@@ -228,6 +237,8 @@ class Runner:
         goal = op["goal"]
         args = [build(yp, a, env) for a in goal.get("a", [])]
         self.qv[op["r"]] = vs
+        if self.opts.get("check_nlog"):
+            del self.nstate.log[:]     # the specification logs per run; one run at a time in these families
         self.q[op["r"]] = [yp.query(goal["n"], args)]
 
     def one_next(self, r):
